@@ -3,14 +3,17 @@
 Rust files of /repo into a temporary tree, applies ONE mutation per case, regenerates lean/CC/Gen/Kernels.lean from it,
 builds the family's obligation module (`lake build CC.<Family>.Src`) and checks that it FAILS (N cases) resp. still
 builds (P cases: harmless rewrites).  Restores the generated file from /repo at the end.  Not a registered check.
-Cases N01–N40 / P01–P09: phase 1 (kernels, tables); N41–N84 / P10–P18: phase 2 (the code around the kernels).
-    python3 tools/inventory_kernels_selftest.py [case-id-prefix ...]"""
+Cases N01–N40 / P01–P09: phase 1 (kernels, tables); N41–N84 / P10–P18: phase 2 (the code around the kernels);
+N85–N150 / P19–P36: phase 3 (the glue: rustcrypto_impl.rs bookkeeping, hasher impls, trait impls) — the breaking edits are
+the independently seeded changes of DESIGN §0.5 that live in the glue, plus one edit per translated statement group.
+    python3 tools/inventory_kernels_selftest.py [case id | range like N85-N152 | prefix* ...]"""
 import os, re, shutil, subprocess, sys, time
 K = os.path.dirname(os.path.dirname(os.path.abspath(__file__)))
 sys.path.insert(0, K + "/tools")
 import inventory_kernels as IK
+GROESTL_LIB = "hashes/groestl/src/lib.rs"
 FILES = [IK.GUTS, IK.RCI, IK.BLAKE_LIB, IK.BLAKE_CONSTS, IK.JH_COMP, IK.JH_CONSTS, IK.JH_LIB, IK.TF_LIB, IK.TF_CONSTS,
-         IK.SKEIN_LIB, IK.GROESTL_COMP]
+         IK.SKEIN_LIB, IK.GROESTL_COMP, GROESTL_LIB]
 import tempfile
 ROOT = os.path.join(tempfile.gettempdir(), "kernels_selftest_%d" % os.getpid())
 MOD = {"chacha": "CC.ChaCha.Src", "blake": "CC.Blake.Src", "jh": "CC.JH.Src", "threefish": "CC.Threefish.Src",
@@ -133,7 +136,106 @@ CASES = [
   ("P16 blake put_block: loop variable `sigma` renamed, `h` computed before the loop", True, "blake", IK.BLAKE_LIB, lambda s: s.replace("sigma", "sg").replace("                let h: (M::$X4, M::$X4) = (mach.unpack(state.h[0]), mach.unpack(state.h[1]));\n", "").replace("                for sg in &SIGMA[..$rounds] {", "                let h: (M::$X4, M::$X4) = (mach.unpack(state.h[0]), mach.unpack(state.h[1]));\n                for sg in &SIGMA[..$rounds] {")),
   ("P17 threefish: `v_tmp` renamed, `let r` moved before the key addition (encrypt)", True, "threefish", IK.TF_LIB, lambda s: s.replace("v_tmp", "vt").replace("                            let (e0, e1) =\n                                if d % 4 == 0 {\n                                    (v0.wrapping_add", "                            let r = $rot[d % 8][j];\n                            let (e0, e1) =\n                                if d % 4 == 0 {\n                                    (v0.wrapping_add").replace("                                };\n                            let r = $rot[d % 8][j];\n                            let (f0, f1) = mix(r, (e0, e1));", "                                };\n                            let (f0, f1) = mix(r, (e0, e1));")),
   ("P18 threefish with_tweak: the three `else if` tests written with a temporary, `t` built after `sk`", True, "threefish", IK.TF_LIB, lambda s: s.replace("                let t = [tweak0, tweak1, tweak0 ^ tweak1];\n                let mut sk = [[0u64; $n_w]; $rounds / 4 + 1];", "                let mut sk = [[0u64; $n_w]; $rounds / 4 + 1];\n                let tw2 = tweak0 ^ tweak1;\n                let t = [tweak0, tweak1, tw2];")),
+  # ---------------------------------------------------------------- phase 3: the glue
+  # ChaCha: rustcrypto_impl.rs
+  ("N85 lazy fill: `self.len.wrapping_sub(1)` -> `self.len - 1` (R4-C01: a debug-only panic; checked vs wrapping is distinguished)", False, "chacha", IK.RCI, sub1("self.len = self.len.wrapping_sub(1);", "self.len = self.len - 1;")),
+  ("N86 `self.fresh &= blocks_needed == 0` -> `self.fresh = false` (R3-C02)", False, "chacha", IK.RCI, sub1("self.fresh &= blocks_needed == 0;", "self.fresh = false;")),
+  ("N87 overflow check: `if o && !self.fresh` -> `if o`", False, "chacha", IK.RCI, sub1("if o && !self.fresh {", "if o {")),
+  ("N88 tail loop: `have = BLOCK - dd.len()` hoisted out of the loop (R4-C16)", False, "chacha", IK.RCI, sub1("            have = BLOCK - dd.len();\n        }", "        }\n        have = BLOCK - data.len() % BLOCK;")),
+  ("N89 try_current_pos: `NonceSize::U32 != 12 &&` dropped (R4-C02)", False, "chacha", IK.RCI, sub1("if NonceSize::U32 != 12 && self.state.len == 0 && !self.state.fresh {", "if self.state.len == 0 && !self.state.fresh {")),
+  ("N90 try_seek guard in block units (R3-C11)", False, "chacha", IK.RCI, sub1("ct > SMALL_LEN * BLOCK64", "ct / BLOCK64 > SMALL_LEN")),
+  ("N91 IETF wrapper: nonce word not restored on the error path (C02 / C11 / R2-C01)", False, "chacha", IK.RCI, sub1("        let ctr = self.state.state.get_stream_param(0) & 0xffff_ffff;", "        if res.is_err() { return res; }\n        let ctr = self.state.state.get_stream_param(0) & 0xffff_ffff;")),
+  ("N92 IETF wrapper: saved nonce word taken from the low half", False, "chacha", IK.RCI, sub1("let nonce0 = self.state.state.get_stream_param(0) >> 32;", "let nonce0 = self.state.state.get_stream_param(0) & 0xffff_ffff;")),
+  ("N93 seek64: `buf.fresh = blockct == 0` -> `ct == 0`", False, "chacha", IK.RCI, sub1("buf.fresh = blockct == 0;", "buf.fresh = ct == 0;")),
+  ("N94 seek32: the assert dropped", False, "chacha", IK.RCI, sub1("        assert!(blockct < SMALL_LEN || (blockct == SMALL_LEN && ct % BLOCK64 == 0));\n", "")),
+  ("N96 ChaChaAny::new: `fresh: nonce_len != 12` -> `fresh: true`", False, "chacha", IK.RCI, sub1("fresh: nonce_len != 12,", "fresh: true,")),
+  ("N97 ChaChaAny::new (X): `len: BIG_LEN` -> `len: SMALL_LEN`", False, "chacha", IK.RCI, sub1("                len: BIG_LEN,\n                fresh: true,", "                len: SMALL_LEN,\n                fresh: true,")),
+  ("N98 wide loop over `chunks_mut` instead of `chunks_exact_mut`", False, "chacha", IK.RCI, sub1("for dd in d0.chunks_exact_mut(BUFSZ) {", "for dd in d0.chunks_mut(BUFSZ) {")),
+  ("N99 drain: key bytes `&self.out[(BLOCK - have)..]` -> `&self.out[..have]`", False, "chacha", IK.RCI, sub1("zip(&self.out[(BLOCK - have)..])", "zip(&self.out[..have])")),
+  ("N100 drain: `have -= have_ready;` dropped", False, "chacha", IK.RCI, sub1("        have -= have_ready;\n", "")),
+  ("N101 wide split at a BLOCK multiple instead of a BUFSZ multiple", False, "chacha", IK.RCI, sub1("data.len() & !(BUFSZ - 1)", "data.len() & !(BLOCK - 1)")),
+  ("N102 epilogue: `self.have = have as i8` -> `self.have = 0`", False, "chacha", IK.RCI, sub1("self.have = have as i8;", "self.have = 0;")),
+  ("N103 lazy fill: `self.have += BLOCK as i8` made wrapping (no debug check)", False, "chacha", IK.RCI, sub1("self.have += BLOCK as i8;", "self.have = self.have.wrapping_add(BLOCK as i8);")),
+  ("N104 wide loop body xors the stale block buffer instead of the fresh 256 bytes", False, "chacha", IK.RCI, sub1("for (data_b, key_b) in dd.iter_mut().zip(buf.iter()) {", "for (data_b, key_b) in dd.iter_mut().zip(self.out.iter()) {")),
+  ("N105 StreamCipher::try_apply_keystream bypasses the nonce restore (calls the buffer directly)", False, "chacha", IK.RCI, sub1("Self::try_apply_keystream(self, data).map_err(|_| LoopError)", "self.state.try_apply_keystream::<WideEnabled>(data, Rounds::U32).map_err(|_| LoopError)")),
+  ("N106 hand-written `impl Clone for Buffer` that forgets `fresh` (loud)", False, "chacha", IK.RCI, sub1("#[derive(Clone)]\npub struct Buffer {", "impl Clone for Buffer {\n    fn clone(&self) -> Self {\n        Buffer { state: self.state.clone(), out: self.out, have: self.have, len: self.len, fresh: false }\n    }\n}\npub struct Buffer {")),
+  ("N107 StreamCipher impl overrides a provided method (`apply_keystream`): the trait-impl inventory changes", False, "chacha", IK.RCI, sub1("    fn try_apply_keystream(&mut self, data: &mut [u8]) -> Result<(), LoopError> {\n        Self::try_apply_keystream(self, data).map_err(|_| LoopError)\n    }", "    fn try_apply_keystream(&mut self, data: &mut [u8]) -> Result<(), LoopError> {\n        Self::try_apply_keystream(self, data).map_err(|_| LoopError)\n    }\n    fn apply_keystream(&mut self, data: &mut [u8]) {\n        let _ = self.state.try_apply_keystream::<WideEnabled>(data, Rounds::U32);\n    }")),
+  ("N108 try_current_pos: `blocks - 1` -> `blocks.wrapping_sub(1)` and byte offset from `BLOCK as u8 - have as u8` -> `have as u8`", False, "chacha", IK.RCI, sub1("T::from_block_byte(blocks - 1, BLOCK as u8 - have as u8, BLOCK as u8)", "T::from_block_byte(blocks - 1, have as u8, BLOCK as u8)")),
+  ("N109 try_seek calls seek64 for the 12-byte nonce too", False, "chacha", IK.RCI, sub1("        if NonceSize::U32 != 12 {\n            seek64(&mut self.state, ct);", "        if NonceSize::U32 != 13 {\n            seek64(&mut self.state, ct);")),
+  # BLAKE: lib.rs
+  ("N110 blake finalize: `t = (0, 0)` -> `t.0 = 0` (R3-C17)", False, "blake", IK.BLAKE_LIB, sub1("t = (0, 0);", "t.0 = 0;")),
+  ("N111 blake finalize: `extra_block` test `>` -> `>=` (the 55/56-byte boundary, R4-C04)", False, "blake", IK.BLAKE_LIB, sub1("let extra_block = buffer.position() + footerlen > $buf;", "let extra_block = buffer.position() + footerlen >= $buf;")),
+  ("N112 blake finalize: exactfit bits swapped", False, "blake", IK.BLAKE_LIB, sub1("                    0x00\n                } else {\n                    0x80\n                };", "                    0x80\n                } else {\n                    0x00\n                };")),
+  ("N113 blake finalize: msglen halves exchanged", False, "blake", IK.BLAKE_LIB, lambda s: s.replace("msglen[..$buf / 16].copy_from_slice(&t.1.to_be_bytes());", "msglen[..$buf / 16].copy_from_slice(&t.0.to_be_bytes());").replace("msglen[$buf / 16..].copy_from_slice(&t.0.to_be_bytes());", "msglen[$buf / 16..].copy_from_slice(&t.1.to_be_bytes());")),
+  ("N114 blake finalize: padding-only test on the ORIGINAL position", False, "blake", IK.BLAKE_LIB, sub1("                if buffer.position() == 0 {\n                    // don't xor t", "                if extra_block {\n                    // don't xor t")),
+  ("N115 blake update: counter increment per block `* 16` -> `* 8`", False, "blake", IK.BLAKE_LIB, sub1("(mem::size_of::<$word>() * 16) as $word", "(mem::size_of::<$word>() * 8) as $word")),
+  ("N116 blake update: compress BEFORE the counter update (C17 carry-after-compress)", False, "blake", IK.BLAKE_LIB, sub1("                    Self::increase_count(t, (mem::size_of::<$word>() * 16) as $word);\n                    compressor.put_block(block, *t);", "                    compressor.put_block(block, *t);\n                    Self::increase_count(t, (mem::size_of::<$word>() * 16) as $word);")),
+  ("N117 blake reset skipped when nothing is buffered", False, "blake", IK.BLAKE_LIB, sub1("                *self = Self::default()\n", "                if self.buffer.position() != 0 { *self = Self::default() }\n")),
+  ("N118 blake Default: `t: (0, 0)` -> `t: (0, 1)`", False, "blake", IK.BLAKE_LIB, sub1("                    t: (0, 0),", "                    t: (0, 1),")),
+  ("N119 blake finalize: counts `buffer.position()` twice", False, "blake", IK.BLAKE_LIB, sub1("Self::increase_count(&mut t, buffer.position() as $word);", "Self::increase_count(&mut t, buffer.position() as $word * 2);")),
+  ("N120 blake: hand-written Clone that drops the counter (loud)", False, "blake", IK.BLAKE_LIB, sub1("        #[derive(Clone)]\n        pub struct $name {", "        impl Clone for $name {\n            fn clone(&self) -> Self { $name { compressor: self.compressor, buffer: self.buffer.clone(), t: (0, 0) } }\n        }\n        pub struct $name {")),
+  ("N121 blake finalize: output truncated one byte short", False, "blake", IK.BLAKE_LIB, sub1("&compressor.finalize()[..$Bytes::to_usize()]", "&compressor.finalize()[..$Bytes::to_usize() - 1]")),
+  # JH: lib.rs
+  ("N122 jh reset skipped when datalen is zero (C06 seeded)", False, "jh", IK.JH_LIB, sub1("                *self = Self::default();", "                if self.datalen != 0 { *self = Self::default(); }")),
+  ("N123 jh length field: `* 8` -> `<< 3` (no overflow check; R4-C06 kind)", False, "jh", IK.JH_LIB, sub1("let len = self.datalen as u64 * 8;", "let len = (self.datalen as u64) << 3;")),
+  ("N124 jh finalize: branch on datalen instead of the buffer position", False, "jh", IK.JH_LIB, sub1("if buffer.position() == 0 {", "if self.datalen % 64 == 0 && buffer.position() == 0 || self.datalen == 0 {")),
+  ("N125 jh finalize: length stored at `last[48..56]`", False, "jh", IK.JH_LIB, sub1("last[56..].copy_from_slice(&len.to_be_bytes());", "last[48..56].copy_from_slice(&len.to_be_bytes());")),
+  ("N126 jh finalize: output is the FIRST $OutputBytes of the state", False, "jh", IK.JH_LIB, sub1("&finalized[(128 - $OutputBytes::to_usize())..]", "&finalized[..$OutputBytes::to_usize()]")),
+  ("N127 jh update: datalen not updated for an empty buffer", False, "jh", IK.JH_LIB, sub1("                self.datalen += data.len();", "                if data.len() > 1 { self.datalen += data.len(); }")),
+  ("N128 jh Default: `datalen: 0` -> `datalen: 1`", False, "jh", IK.JH_LIB, sub1("datalen: 0,", "datalen: 1,")),
+  ("N129 jh: hand-written Clone that resets datalen (loud)", False, "jh", IK.JH_LIB, sub1("        #[derive(Clone)]\n        pub struct $name {", "        impl Clone for $name {\n            fn clone(&self) -> Self { $name { state: self.state, buffer: self.buffer.clone(), datalen: 0 } }\n        }\n        pub struct $name {")),
+  ("N130 jh finalize: Iso7816 padding replaced by ZeroPadding", False, "jh", IK.JH_LIB, lambda s: s.replace("use block_buffer::block_padding::Iso7816;", "use block_buffer::block_padding::ZeroPadding;").replace("buffer.pad_with::<Iso7816>()", "buffer.pad_with::<ZeroPadding>()")),
+  # Skein: lib.rs
+  ("N131 skein process_block: `state.t.1 &= !T1_FLAG_FIRST` dropped", False, "skein", IK.SKEIN_LIB, sub1("                state.t.1 &= !T1_FLAG_FIRST;\n", "")),
+  ("N132 skein finalize: FINAL flag not set", False, "skein", IK.SKEIN_LIB, sub1("                self.state.t.1 |= T1_FLAG_FINAL;\n", "")),
+  ("N133 skein output loop: counter truncated to u8 (C05 seeded)", False, "skein", IK.SKEIN_LIB, sub1("&(i as u64).to_le_bytes()", "&(i as u8 as u64).to_le_bytes()")),
+  ("N134 skein output loop: word-wise copy drops the tail (R3-C05)", False, "skein", IK.SKEIN_LIB, sub1("let n = chunk.len();", "let n = chunk.len() / 8 * 8;")),
+  ("N135 skein reset skipped after an empty finalize (C08 seeded)", False, "skein", IK.SKEIN_LIB, sub1("                *self = Self::default();", "                if self.buffer.position() != 0 || self.state.t.0 != 0 { *self = Self::default(); }")),
+  ("N136 skein default: `state.t.1 = FIRST | MSG` -> `|=` (keeps FINAL; R2-C05)", False, "skein", IK.SKEIN_LIB, sub1("state.t.1 = T1_FLAG_FIRST | T1_BLK_TYPE_MSG;", "state.t.1 |= T1_FLAG_FIRST | T1_BLK_TYPE_MSG;")),
+  ("N137 skein update: `input_lazy` -> `input_block` (R4-C05: a full lazy buffer is flushed early)", False, "skein", IK.SKEIN_LIB, sub1("buffer.input_lazy(data.as_ref(), |block| {", "buffer.input_block(data.as_ref(), |block| {")),
+  ("N138 skein: hand-written Clone that drops the byte counter (R3-C08; loud)", False, "skein", IK.SKEIN_LIB, sub1("#[derive(Clone)]\nstruct State<X> {", "impl<X: Clone> Clone for State<X> {\n    fn clone(&self) -> Self { State { t: (0, self.t.1), x: self.x.clone() } }\n}\nstruct State<X> {")),
+  ("N139 skein process_block: byte counter add made wrapping", False, "skein", IK.SKEIN_LIB, sub1("state.t.0 += byte_count_add as u64;", "state.t.0 = state.t.0.wrapping_add(byte_count_add as u64);")),
+  ("N140 skein update: closure counts half a block", False, "skein", IK.SKEIN_LIB, sub1("Self::process_block(state, block, $state_bits / 8)", "Self::process_block(state, block, $state_bits / 16)")),
+  ("N141 skein default: config block says N bytes instead of bits", False, "skein", IK.SKEIN_LIB, sub1("&(N::to_u64() * 8).to_le_bytes()", "&(N::to_u64()).to_le_bytes()")),
+  ("N142 skein finalize: last block counted as a full block", False, "skein", IK.SKEIN_LIB, sub1("Self::process_block(&mut self.state, final_block, pos);", "Self::process_block(&mut self.state, final_block, $state_bits / 8);")),
+  # Groestl: lib.rs
+  ("N143 groestl final count: `remaining() <= 8` -> `< 8`", False, "groestl", GROESTL_LIB, sub1("(buffer.remaining() <= 8) as u64", "(buffer.remaining() < 8) as u64")),
+  ("N144 groestl block counter through u32 (C07 seeded kind)", False, "groestl", GROESTL_LIB, sub1("*block_counter += 1;", "*block_counter = (*block_counter as u32 + 1) as u64;")),
+  ("N145 groestl reset fast path when the buffer is empty (R2-C07)", False, "groestl", GROESTL_LIB, sub1("                *self = $groestl::default();", "                if self.buffer.position() == 0 { return; }\n                *self = $groestl::default();")),
+  ("N146 groestl: hand-written Clone that drops the block counter (R3-C07; loud)", False, "groestl", GROESTL_LIB, sub1("        #[derive(Clone)]\n        pub struct $groestl {", "        impl Clone for $groestl {\n            fn clone(&self) -> Self { $groestl { buffer: self.buffer.clone(), block_counter: 0, compressor: self.compressor.clone() } }\n        }\n        pub struct $groestl {")),
+  ("N147 Groestl224 output: `result[4] >> 32` -> low half", False, "groestl", GROESTL_LIB, sub1("((result[4] >> 32) as u32)", "(result[4] as u32)")),
+  ("N148 groestl new_truncated: `.to_be()` -> `.to_le()`", False, "groestl", GROESTL_LIB, sub1("u64::from(bits).to_be()", "u64::from(bits).to_le()")),
+  ("N149 Groestl224::reset re-initialises as Groestl256", False, "groestl", GROESTL_LIB, sub1("self.0 = Groestl256::new_truncated(224);", "self.0 = Groestl256::new_truncated(256);")),
+  ("N150 groestl finalize_into_dirty: output taken from the first half of the state", False, "groestl", GROESTL_LIB, sub1("zip(&result[$bits::USIZE / 128..])", "zip(&result[..$bits::USIZE / 128])")),
+  # Threefish trait impls
+  ("N151 threefish `new` = with_tweak(key, 0, 1)", False, "threefish", IK.TF_LIB, sub1("Self::with_tweak(key, 0, 0)", "Self::with_tweak(key, 0, 1)")),
+  ("N152 threefish: BlockDecrypt overrides `decrypt_blocks` (R3-C10): the trait-impl inventory changes", False, "threefish", IK.TF_LIB, sub1("        impl BlockDecrypt for $name {\n            fn decrypt_block(", "        impl BlockDecrypt for $name {\n            fn decrypt_blocks(&self, blocks: &mut [GenericArray<u8, Self::BlockSize>]) {\n                for b in blocks { self.encrypt_block(b); }\n            }\n            fn decrypt_block(")),
+  # harmless rewrites of the glue: byte-identical output
+  ("P19 try_apply: `self.len = l;` and `self.fresh &= ..;` exchanged", True, "chacha", IK.RCI, sub1("        self.len = l;\n        self.fresh &= blocks_needed == 0;", "        self.fresh &= blocks_needed == 0;\n        self.len = l;")),
+  ("P20 try_apply: locals `have_ready`, `blocks_needed`, `datalen` renamed", True, "chacha", IK.RCI, lambda s: s.replace("have_ready", "hr").replace("blocks_needed", "need").replace("datalen", "dl")),
+  ("P21 try_apply: temporary for `data.len() - have_ready`", True, "chacha", IK.RCI, sub1("let datalen = (data.len() - have_ready) as u64;", "let rem = data.len() - have_ready;\n        let datalen = rem as u64;")),
+  ("P22 seek64: the three field assignments reordered", True, "chacha", IK.RCI, sub1("        buf.len = BIG_LEN.wrapping_sub(blockct);\n        buf.fresh = blockct == 0;\n        buf.have = -((ct % BLOCK64) as i8);", "        buf.have = -((ct % BLOCK64) as i8);\n        buf.fresh = blockct == 0;\n        buf.len = BIG_LEN.wrapping_sub(blockct);")),
+  ("P23 try_current_pos: `have > 0` written `0 < have`, `let have` moved up", True, "chacha", IK.RCI, lambda s: s.replace("        let have = self.state.have;\n        if have > 0 {", "        if have0 > 0 {").replace("        let total = if NonceSize::U32 != 12 {", "        let have0 = self.state.have;\n        let have = have0;\n        let total = if NonceSize::U32 != 12 {").replace("if have0 > 0 {", "if 0 < have0 {")),
+  ("P24 IETF wrapper: `ctr` computed through a temporary", True, "chacha", IK.RCI, sub1("let ctr = self.state.state.get_stream_param(0) & 0xffff_ffff;", "let cur = self.state.state.get_stream_param(0);\n        let ctr = cur & 0xffff_ffff;")),
+  ("P25 blake finalize: `footerlen` / `isfull` lines exchanged, `magic` renamed", True, "blake", IK.BLAKE_LIB, lambda s: s.replace("magic", "mg")),
+  ("P26 blake update: the two `let` aliases exchanged", True, "blake", IK.BLAKE_LIB, sub1("                let compressor = &mut self.compressor;\n                let t = &mut self.t;", "                let t = &mut self.t;\n                let compressor = &mut self.compressor;")),
+  ("P27 jh update: alias line moved before the counter update", True, "jh", IK.JH_LIB, sub1("                self.datalen += data.len();\n                let state = &mut self.state;", "                let state = &mut self.state;\n                self.datalen += data.len();")),
+  ("P28 jh finalize: `len` renamed", True, "jh", IK.JH_LIB, lambda s: s.replace("let len = self.datalen as u64 * 8;", "let bitlen = self.datalen as u64 * 8;").replace("len64_padding_be(len,", "len64_padding_be(bitlen,").replace("&len.to_be_bytes()", "&bitlen.to_be_bytes()")),
+  ("P29 skein update: alias lines exchanged", True, "skein", IK.SKEIN_LIB, sub1("                let buffer = &mut self.buffer;\n                let state = &mut self.state;", "                let state = &mut self.state;\n                let buffer = &mut self.buffer;")),
+  ("P30 skein process_block: `fish` renamed, `x` cloned through a temporary", True, "skein", IK.SKEIN_LIB, lambda s: s.replace("let fish = $threefish::with_tweak", "let tf = $threefish::with_tweak").replace("fish.encrypt_block(x.as_byte_array_mut());", "tf.encrypt_block(x.as_byte_array_mut());").replace("let mut x = block.clone();", "let b2 = block.clone();\n                let mut x = b2;")),
+  ("P31 groestl update: counter increment after the compression (same dataflow)", True, "groestl", GROESTL_LIB, sub1("                    *block_counter += 1;\n                    compressor.input(b)", "                    compressor.input(b);\n                    *block_counter += 1;")),
+  ("P32 groestl finalize_dirty: alias lines exchanged", True, "groestl", GROESTL_LIB, sub1("                let buffer = &mut self.buffer;\n                let compressor = &mut self.compressor;\n                let count", "                let compressor = &mut self.compressor;\n                let buffer = &mut self.buffer;\n                let count")),
+  ("P34 seek32: `SMALL_LEN - blockct` -> wrapping_sub: the generated text changes (no debug guard) but the obligation is still PROVED — under the assert the subtraction cannot overflow (the tie is semantic, not textual)", True, "chacha", IK.RCI, sub1("buf.len = SMALL_LEN - blockct;", "buf.len = SMALL_LEN.wrapping_sub(blockct);")),
+  ("P33 threefish new: literal tweaks through constants", True, "threefish", IK.TF_LIB, sub1("Self::with_tweak(key, 0, 0)", "Self::with_tweak(key, 0x0, 0u64)")),
 ]
+
+def selected(cid, o):
+    if o.endswith("*"):
+        return cid.startswith(o[:-1])
+    m = re.match(r"^([NP])(\d+)-\1(\d+)$", o)
+    if m:
+        return cid[0] == m.group(1) and int(m.group(2)) <= int(cid[1:]) <= int(m.group(3))
+    return cid == o
 
 def run(cmd, **kw):
     return subprocess.run(cmd, stdout=subprocess.PIPE, stderr=subprocess.STDOUT, universal_newlines=True, **kw)
@@ -142,7 +244,7 @@ def main():
     results = []
     only = sys.argv[1:]
     for cid, expect_ok, fam, rel, mut in CASES:
-        if only and not any(cid.startswith(o) for o in only):
+        if only and not any(selected(cid.split()[0], o) for o in only):
             continue
         shutil.rmtree(ROOT, ignore_errors=True)
         for f in FILES:
